@@ -28,6 +28,7 @@ package memfs
 import (
 	"io/fs"
 	"os"
+	"strings"
 	"time"
 
 	"github.com/avfs/avfs"
@@ -790,6 +791,23 @@ func (vfs *MemFS) Rename(oldpath, newpath string) error {
 	if nErr != vfs.err.FileExists && !vfs.isNotExist(nErr) || vfs.isNotExist(nErr) && !nPI.IsLast() {
 		// newpath can't be resolved or one of its directories is missing.
 		return &os.LinkError{Op: op, Old: oldpath, New: newpath, Err: nErr}
+	}
+
+	if c, ok := oChild.(*dirNode); ok {
+		if c == oParent {
+			// The root directory is its own parent and can't be renamed.
+			return &os.LinkError{Op: op, Old: oldpath, New: newpath, Err: vfs.err.PermDenied}
+		}
+
+		if strings.HasPrefix(nPI.Path(), oPI.Path()+string(vfs.PathSeparator())) {
+			// A directory can't be moved to a subdirectory of itself.
+			err := vfs.err.InvalidArgument
+			if vfs.OSType() == avfs.OsWindows {
+				err = avfs.ErrWinAccessDenied
+			}
+
+			return &os.LinkError{Op: op, Old: oldpath, New: newpath, Err: err}
+		}
 	}
 
 	oParent.mu.Lock()
